@@ -269,7 +269,21 @@ def _split_files(ctx, rules):
     return main, d
 
 
-def run_generate(ctx, kind, small=False):
+def _withdrawn_override(ctx, env, tool_enf, withdrawn):
+    """The enforcer the tool is given may be a long-lived one: it has
+    already loaded the operator's files at a time when policy.d held one
+    more override file, which the operator has withdrawn since (the main
+    file untouched).  The tool works from the files as they are now."""
+    if not withdrawn:          # (cube parameter)
+        return
+    env.write('policy.d/zz-extra.yaml', {'p': 'role:u and not role:v',
+                                         'q': 'role:w', 'xtra': 'role:u'})
+    tool_enf.load_rules()
+    env.remove('policy.d/zz-extra.yaml')
+    ctx.cover('tools:long-lived-enforcer')
+
+
+def run_generate(ctx, kind, small=False, withdrawn=False):
     from oslo_policy import generator
     common.set_ctx(ctx)
     rules, chosen = _file_for(ctx, kind, 'generate', small)
@@ -286,6 +300,7 @@ def run_generate(ctx, kind, small=False):
         detail = {'main': main, 'dir': d, 'defaults': kind}
         a = _enforcer(env, kind, 'policy.yaml', dirs=['policy.d'])
         tool_enf = _enforcer(env, kind, 'policy.yaml', dirs=['policy.d'])
+        _withdrawn_override(ctx, env, tool_enf, withdrawn)
         out = env.path('merged.yaml')
         with mock.patch('oslo_policy.generator._get_enforcer') as ge:
             ge.return_value = tool_enf
@@ -308,7 +323,7 @@ def run_generate(ctx, kind, small=False):
         env.close()
 
 
-def run_redundant(ctx, kind, small=False):
+def run_redundant(ctx, kind, small=False, withdrawn=False):
     from oslo_policy import generator
     common.set_ctx(ctx)
     rules, chosen = _file_for(ctx, kind, 'redundant', small)
@@ -323,6 +338,7 @@ def run_redundant(ctx, kind, small=False):
             env.write('policy.d/over.yaml', d)
         detail = {'main': main, 'dir': d, 'defaults': kind}
         tool_enf = _enforcer(env, kind, 'policy.yaml', dirs=['policy.d'])
+        _withdrawn_override(ctx, env, tool_enf, withdrawn)
         buf = io.StringIO()
         with mock.patch('oslo_policy.generator._get_enforcer') as ge, \
                 contextlib.redirect_stdout(buf):
@@ -379,10 +395,15 @@ HARNESSES = {
                 'cubes': lambda t, s: _cubes(t, s, ['yaml', 'json']) + [
                     dict(c, namespaces=2) for c in _cubes(t, s, ['yaml'])
                     if c['kind'] in ('split', 'renamed', 'all')]},
-    'generate': {'fn': run_generate, 'cubes': lambda t, s: _cubes(t, s)},
-    'redundant': {'fn': run_redundant, 'cubes': lambda t, s: _cubes(t, s)},
+    'generate': {'fn': run_generate, 'cubes': lambda t, s: _cubes(t, s) + [
+        dict(c, withdrawn=True) for c in _cubes(t, s)
+        if c['kind'] in ('plain', 'changed')]},
+    'redundant': {'fn': run_redundant, 'cubes': lambda t, s: _cubes(t, s) + [
+        dict(c, withdrawn=True) for c in _cubes(t, s)
+        if c['kind'] == 'plain']},
 }
 REQUIRED_COVER = ['convert:ran', 'upgrade:ran', 'generate:ran',
+                  'tools:long-lived-enforcer',
                   'redundant:ran', 'redundant:reported']
 
 
